@@ -34,9 +34,12 @@ func buildGraph(c *engine.C, o graphOpts) genGraph {
 	n := o.N
 	dist := 0
 	if o.DistMenu {
-		dist = (c.Choose(4, "dist") + o.DefaultDist) % 4
+		dist = (c.Choose(5, "dist") + o.DefaultDist) % 5
 		if dist == 3 {
 			c.Tag("default-package")
+		}
+		if dist == 4 {
+			c.Tag("names-that-end-in-each-other")
 		}
 	}
 	quote, unresolved, external, overload := 0, false, false, false
@@ -63,6 +66,14 @@ func buildGraph(c *engine.C, o graphOpts) genGraph {
 		case 3:
 			// sources without a package declaration: every type lives in the default package
 			m.Pkg = ""
+		case 4:
+			// one class and method name in packages whose names end in each other (org.com.p, com.p, p, none):
+			// every full name is a suffix of the ones before it
+			m.Pkg, m.Name = []string{"com.p", "p", "", "org.com.p", "x.org.com.p"}[i%5], "m"
+			if i == 3 || i == 4 {
+				m.Class = "B" // keeps the names distinct for n > 3: B-names end in each other, not in the A-names
+				m.Pkg = []string{"com.p", "p"}[i-3]
+			}
 		}
 		if quote > 0 && i == 1%n {
 			// a quote; an escaped quote as in the literal receiver "say \"hi\""; two escaped quotes in a row. No name holds
